@@ -175,14 +175,14 @@ class RefDetector(object):
         if len(self.axes) == 1:
             n = np.array([d[1], -d[0]])
         else:
-            n = np.cross(d[0], d[1])
+            n = rot.cross3(d[0], d[1])
         return n / np.sqrt(np.dot(n, n))
 
     def measure(self, p):
         d = self.deriv(p)
         if len(self.axes) == 1:
             return float(np.sqrt(np.dot(d, d)))
-        c = np.cross(d[0], d[1])
+        c = rot.cross3(d[0], d[1])
         return float(np.sqrt(np.dot(c, c)))
 
     @property
@@ -243,6 +243,7 @@ class RefGeometry(object):
         self.offset = float(g.get('offset', 0.0) or 0.0)
         self.src_shift = src_shift
         self.det_shift = det_shift
+        self._rot_memo = {}
         curv = g.get('curv')
         if self.ndim == 2:
             kind, radius = ('flat1d', None) if curv is None else ('circ', curv)
@@ -256,11 +257,20 @@ class RefGeometry(object):
 
     # -- motion ----------------------------------------------------------
     def rot(self, m):
-        if self.cls in ('par2d', 'fan'):
-            return rot.rot2d(float(m))
-        if self.cls in ('par3d_axis', 'cone'):
-            return rot.rodrigues(self.axis, float(m))
-        return rot.euler_zxz(*[float(a) for a in m])
+        """Rotation matrix at the motion parameter ``m`` (memoised by
+        parameter value; callers get a fresh copy)."""
+        key = (tuple(float(a) for a in m) if np.ndim(m) else float(m))
+        R = self._rot_memo.get(key)
+        if R is None:
+            if self.cls in ('par2d', 'fan'):
+                R = rot.rot2d(key)
+            elif self.cls in ('par3d_axis', 'cone'):
+                R = rot.rodrigues(self.axis, key)
+            else:
+                R = rot.euler_zxz(*key)
+            if len(self._rot_memo) < 4096:
+                self._rot_memo[key] = R
+        return R.copy()
 
     def _shift(self, func, m):
         if func is None:
@@ -283,7 +293,7 @@ class RefGeometry(object):
             tangent = np.array([-self.s[1], self.s[0]])
             extra = 0.0
         else:
-            tangent = rot.unit(np.cross(-self.s, self.axis))
+            tangent = rot.unit(rot.cross3(-self.s, self.axis))
             extra = sh[2]
         init = self.rd * self.s + sh[0] * self.s + sh[1] * tangent
         return self.t + R.dot(init) + self._axial(m, extra)
@@ -295,7 +305,7 @@ class RefGeometry(object):
             tangent = np.array([self.s[1], -self.s[0]])
             extra = 0.0
         else:
-            tangent = rot.unit(np.cross(self.s, self.axis))
+            tangent = rot.unit(rot.cross3(self.s, self.axis))
             extra = sh[2]
         init = -self.rs * self.s - sh[0] * self.s + sh[1] * tangent
         return self.t + R.dot(init) + self._axial(m, extra)
